@@ -1,5 +1,6 @@
 """Helpers shared by the C14/C15 plugins (Store area)."""
 import hashlib, os, re
+from pipeline import REPO
 
 PRELUDE = os.path.join(REPO, "marwood/prelude.scm")
 
